@@ -843,6 +843,7 @@ def make_builtins(interp):
                  ("ValueError", "Exception"), ("UnicodeError", "ValueError"), ("UnicodeDecodeError", "UnicodeError"),
                  ("UnicodeEncodeError", "UnicodeError"),
                  ("Warning", "Exception"), ("DeprecationWarning", "Warning"), ("UserWarning", "Warning"),
+                 ("SyntaxWarning", "Warning"), ("RuntimeWarning", "Warning"), ("FutureWarning", "Warning"), ("ResourceWarning", "Warning"),
                  ("FrozenInstanceError", "AttributeError"), ("struct.error", "Exception")]:
         mk(n, b)
     ns["IOError"] = ns["OSError"]
